@@ -88,12 +88,18 @@ def oracle(ctx, seeds=None):
     for i in range(ctx.n(36, 600)):
         name = ALL[i % len(ALL)]
         cfg = small_problem(rng, name)
+        if i % 4 == 2 and cfg['model'] == 'conv':
+            # extreme time scales: bookkeeping must not contain absolute time constants
+            k = int(rng.choice([-50, -40, 30, 45]))
+            cfg['a'] = float(np.sign(cfg['a']) * 2.0 ** (-k)); cfg['mesh'] = dict(kind='uni', n=cfg['n'], L=float(2.0 ** int(rng.integers(-12, 3))), x0=0.0)
         ok, b = impl.guarded(cfg1d.build, cfg)
         if not ok:
             res.fail('build:raised', b, dict(cfg=cfg)); continue
         mod, msh, disc, f0 = b
         cfl = float(rng.choice([0.3, 0.45])) if name not in ('implicit', 'cranknicolson', 'gear') else float(rng.choice([0.5, 1.5]))
         t0 = float(rng.choice([0.0, 0.0, 0.25, 1.0]))
+        if i % 4 == 2 and cfg['model'] == 'conv':
+            t0 = 0.0
         f0.time = t0
         f0.it = int(rng.choice([-1, -1, 3]))
         dt0 = float(np.min(disc.calc_timestep(f0, cfl)))
